@@ -31,6 +31,52 @@ BUILTINS = {
 }
 
 
+def mstr(s: str) -> str:
+    """A meson string literal for s (Syntax.md, "Strings": backslash and single quote are escaped; a line break and a tab
+    are written as the documented escape sequences)."""
+    return "'" + s.replace('\\', '\\\\').replace("'", "\\'").replace('\n', '\\n').replace('\t', '\\t') + "'"
+
+
+def items(v: str) -> T.List[str]:
+    """The elements of an array option value as the user spells it on a command line (Build-options.md, "Using build
+    options"): `a,b` = the values separated by commas; `['a,b', 'c']` = the bracket form for elements that contain commas
+    (inner quotes single); `` and `[]` = the empty array.  Only spellings the document describes are understood: an
+    element of the bracket form holds neither a single quote nor a backslash."""
+    if v == '' or v == '[]':
+        return []
+    if not v.startswith('['):
+        return v.split(',')
+    assert v.endswith(']'), v
+    out: T.List[str] = []
+    i, n = 1, len(v) - 1
+    while i < n:
+        while i < n and v[i] in ' ,':
+            i += 1
+        if i >= n:
+            break
+        assert v[i] == "'", v
+        j = v.index("'", i + 1)
+        out.append(v[i + 1:j])
+        i = j + 1
+    return out
+
+
+def fmt_items(xs: T.Sequence[str]) -> T.Optional[str]:
+    """A documented command-line spelling of the array xs (None if the document describes none)."""
+    if not xs:
+        return ''
+    if all(x and ',' not in x and x == x.strip() for x in xs) and not xs[0].startswith('['):
+        return ','.join(xs)
+    if any("'" in x or '\\' in x or '\n' in x for x in xs):
+        return None
+    return '[' + ', '.join("'" + x + "'" for x in xs) + ']'
+
+
+def canon(kind: str, v: str) -> T.Any:
+    """Comparison form of a value as typed: two spellings of the same array are the same value."""
+    return tuple(items(v)) if kind == 'array' else v
+
+
 class Spec:
     def __init__(self, name: str, kind: str, default: str, choices: T.Optional[T.List[str]] = None,
                  min: T.Optional[int] = None, max: T.Optional[int] = None, yielding: bool = False) -> None:
@@ -58,8 +104,7 @@ class Spec:
         if self.kind == 'feature':
             return v in ('enabled', 'disabled', 'auto')
         if self.kind == 'array':
-            items = [x for x in v.split(',')] if v else []
-            return all(x in self.choices for x in items) if self.choices is not None else True
+            return all(x in self.choices for x in items(v)) if self.choices is not None else True
         raise AssertionError(self.kind)
 
     def constraints(self) -> T.Any:
@@ -68,7 +113,7 @@ class Spec:
     def decl(self) -> str:
         """meson.options declaration."""
         if self.kind == 'string':
-            val = "'" + self.default + "'"
+            val = mstr(self.default)
         elif self.kind == 'boolean':
             val = self.default
         elif self.kind == 'integer':
@@ -76,10 +121,10 @@ class Spec:
         elif self.kind in ('combo', 'feature'):
             val = "'" + self.default + "'"
         else:
-            val = '[' + ', '.join("'" + x + "'" for x in (self.default.split(',') if self.default else [])) + ']'
+            val = '[' + ', '.join(mstr(x) for x in items(self.default)) + ']'
         s = f"option('{self.name}', type: '{self.kind}', value: {val}"
         if self.choices is not None and self.kind in ('combo', 'array'):
-            s += ', choices: [' + ', '.join("'" + c + "'" for c in self.choices) + ']'
+            s += ', choices: [' + ', '.join(mstr(c) for c in self.choices) + ']'
         if self.kind == 'integer':
             if self.min is not None:
                 s += f', min: {self.min}'
@@ -279,7 +324,8 @@ class Model:
             elif sub and st.applied[sub][name].yielding and k not in st.user:
                 dirty = True    # an option that stops yielding is a change even if the value is the same
             else:
-                dirty |= probe.value(k) != v
+                kd = BUILTINS[name]['kind'] if name in BUILTINS else st.applied[sub][name].kind
+                dirty |= canon(kd, probe.value(k)) != canon(kd, v)
         for k in unset:
             dirty |= k in st.user
         if not dirty:
